@@ -279,7 +279,7 @@ func cmdCheck(args []string) int {
 		fmt.Fprintln(os.Stderr, err)
 		return 2
 	}
-	opts := Options{TimeoutS: 20, Tier: *tier, Verbose: *verbose, KeepSMT: *keep, WorkDir: mkWorkDir()}
+	opts := Options{TimeoutS: 30, Tier: *tier, Verbose: *verbose, KeepSMT: *keep, WorkDir: mkWorkDir()}
 	if *tier == "thorough" {
 		opts.TimeoutS = 120
 		opts.TwoSolvers = true
